@@ -44,7 +44,7 @@ func retIndex(names ...string) func(r abs.Result, field string) (abs.Value, bool
 func runC09(c *Ctx) {
 	R := c.R
 	R.Require("C09.layout", 11)
-	R.Require("C09.fullread", 3)
+	R.Require("C09.fullread", 1)
 	l := newLayout(c, "C09.layout")
 	lenTag := abs.LAtom("len(tag)")
 
